@@ -5,6 +5,7 @@ package main
 import (
 	"fmt"
 	"go/types"
+	"sort"
 	"strings"
 
 	"golang.org/x/tools/go/ssa"
@@ -135,6 +136,11 @@ func (ex *Exec) callContract(st *State, fr *Frame, c ssa.Instruction, fn *ssa.Fu
 	for i, n := range fc.Params {
 		env.bind(n, args[i], fn.Params[i].Type())
 	}
+	if fn.Signature.Recv() != nil && len(args) > 0 {
+		if _, ok := env.vars["self"]; !ok {
+			env.bind("self", args[0], fn.Params[0].Type())
+		}
+	}
 	for i, fv := range fn.FreeVars {
 		if i < len(bind) {
 			if _, ok := env.vars[fv.Name()]; !ok {
@@ -174,7 +180,7 @@ func (ex *Exec) callContract(st *State, fr *Frame, c ssa.Instruction, fn *ssa.Fu
 		if i < len(fc.Results) {
 			name = fn.Name() + "." + fc.Results[i]
 		}
-		rv := st.symValue(res.At(i).Type(), freshName(name), 2, false)
+		rv := st.symValue(res.At(i).Type(), freshName(name), 3, false)
 		ex.markFreshResult(st, rv)
 		rets = append(rets, rv)
 		if i < len(fc.Results) {
@@ -265,21 +271,27 @@ func (ex *Exec) invoke(st *State, fr *Frame, c *ssa.Call) []Outcome {
 		return ex.opaqueErrMethod(st, c, com.Method.Name())
 	}
 	it := ifaceName(com.Value.Type())
-	ic := ex.L.Contracts.Ifaces[it]
-	if ic == nil {
-		oos("invoke of %s.%s on unknown dynamic type: no interface contract", it, com.Method.Name())
+	var mc *FuncContract
+	if ic := ex.L.Contracts.Ifaces[it]; ic != nil {
+		mc = ic.Methods[com.Method.Name()]
 	}
-	mc := ic.Methods[com.Method.Name()]
 	if mc == nil {
-		// embedded interface: search all interface contracts for the method
-		for _, other := range ex.L.Contracts.Ifaces {
+		// embedded interface: search the interface contracts this static type embeds
+		var names []string
+		for n := range ex.L.Contracts.Ifaces {
+			names = append(names, n)
+		}
+		sort.Strings(names)
+		for _, n := range names {
+			other := ex.L.Contracts.Ifaces[n]
 			if m2, ok := other.Methods[com.Method.Name()]; ok && ifaceEmbeds(com.Value.Type(), other.Name) {
 				mc = m2
+				break
 			}
 		}
 	}
 	if mc == nil {
-		oos("no contract for interface method %s.%s", it, com.Method.Name())
+		oos("invoke of %s.%s on unknown dynamic type: no interface contract", it, com.Method.Name())
 	}
 	ex.usedCtr["iface:"+it+"."+com.Method.Name()] = true
 	return ex.callIfaceContract(st, fr, c, recv, com, mc, args)
@@ -346,7 +358,7 @@ func (ex *Exec) callIfaceContract(st *State, fr *Frame, c *ssa.Call, recv VIface
 		if i < len(mc.Results) {
 			name = mc.Ref + "." + mc.Results[i]
 		}
-		rv := st.symValue(res.At(i).Type(), freshName(name), 2, false)
+		rv := st.symValue(res.At(i).Type(), freshName(name), 3, false)
 		ex.markFreshResult(st, rv)
 		rets = append(rets, rv)
 		if i < len(mc.Results) {
@@ -582,6 +594,9 @@ func (ex *Exec) appendBuiltin(st *State, fr *Frame, c *ssa.Call, dst, src Value,
 		q.memo = append([]seqEntry{}, base.memo...)
 		q.parent = base
 		q.parentLen = d.Len
+		if base.allWF != nil {
+			q.allWF = Ite(ULt(base.allWF, d.Len), base.allWF, d.Len)
+		}
 	}
 	// appended elements
 	if s.Obj != 0 {
